@@ -183,6 +183,56 @@ def run(tier, seed):
         if not (common.close(mm, mis, 1e-9, 1e-12) and common.vclose(mg, g, 1e-9, 1e-11) and np.allclose(mfw, fw, rtol=1e-12, atol=1e-12)):
             st.disagree(stim, {"misfit": mm, "gradient": mg}, {"misfit": mis, "gradient": g.ravel().tolist()}, "misfit/gradient/forward differ from the model")
 
+    # orientation of the pick / uncertainty arrays ----------------------------------------------------
+    so = Suite("C17.orientation", "SourceLocation2D/3D constructed with pick and uncertainty arrays of every small shape (rows, cols in 1..4) for ne events and ns stations: "
+               "read as given, read transposed, or refused - vs the model's orientation(); the entries the object then uses are compared with the array; "
+               "non-trivial = shape differs from (ne, ns)")
+    oreqs, ometas = [], []
+    for _ in range(120 if thorough else 40):
+        dim = rnd.choice([2, 3])
+        ne, ns = rnd.choice([1, 2, 3, 4]), rnd.choice([1, 2, 3, 4])
+        rows, cols = rnd.choice([(ne, ns), (ns, ne), (ns, ne), (rnd.choice([1, 2, 3, 4]), rnd.choice([1, 2, 3, 4]))])
+        which = rnd.choice(["data", "sigma"])
+        rx = np.array([[float(10 * k) for k in range(ns)]])
+        arr = np.array([[1.0 + 10 * r + c for c in range(cols)] for r in range(rows)])
+        good = np.array([[1.0 + e + 0.1 * s_ for s_ in range(ns)] for e in range(ne)])
+        data_arg, sigma_arg = (arr, good) if which == "data" else (good, arr)
+        if which == "sigma" and rows * cols != ne * ns:
+            pass
+        try:
+            with quiet():
+                if dim == 2:
+                    o = SourceLocation2D(rx, np.zeros_like(rx), data_arg, sigma_arg, infer_velocity=False, medium_velocity=2.0)
+                else:
+                    o = SourceLocation3D(rx, np.zeros_like(rx), np.zeros_like(rx), data_arg, sigma_arg, infer_velocity=False, medium_velocity=2.0)
+            used = np.array(o.observed_data if which == "data" else o.data_std, dtype=float)
+            if used.shape == arr.shape and np.array_equal(used, arr):
+                seen = "as-given"
+            elif used.shape == arr.T.shape and np.array_equal(used, arr.T):
+                seen = "transposed"
+            else:
+                seen = f"other:{used.tolist()}"
+        except (AssertionError, ValueError) as e:
+            seen = "refused"
+        except Exception as e:
+            seen = f"raised:{type(e).__name__}"
+        stim = {"dim": dim, "events": ne, "stations": ns, "array": which, "shape": [rows, cols]}
+        so.case(stim, nontrivial=(rows, cols) != (ne, ns), sample=dict(stim, read=seen) if len(so.samples) < 3 else None)
+        so.count(f"read={seen.split(':')[0]}")
+        # the number of events is derived from the data array's size: a data array of another size changes ne itself
+        if which == "data" and rows * cols != ne * ns:
+            so.count("data array of another size (defines another problem)")
+            continue
+        oreqs.append(f"c17.orient {ne} {ns} {rows} {cols}")
+        ometas.append((stim, seen))
+    for (stim, seen), ans in zip(ometas, lean_batch(oreqs)):
+        want = ans[3:].strip()
+        if seen != want:
+            so.disagree(stim, want, seen, "array orientation differs from the model")
+            if want in ("as-given", "transposed") and not seen.startswith(("refused", "raised")):
+                findings.append(Finding("C17", f"{stim['array']} array of shape {stim['shape']} for {stim['events']} events x {stim['stations']} stations is read as {seen[:60]}, "
+                                        f"expected {want}", {"kind": "orientation", "array": stim["array"]}, {"oracle": "orientation", "stimulus": stim, "read": seen}))
+
     # 3D with all y = 0 equals 2D ---------------------------------------------------------------
     s3 = Suite("C17.dim", "a 3D problem with all y-coordinates zero vs the 2D problem with the same stations/data: equal forward, misfit and matching gradient entries; "
                "non-trivial = all")
@@ -218,7 +268,7 @@ def run(tier, seed):
         if not (common.close(a, b, 1e-12, 1e-14) and common.vclose(g2, g3[keep], 1e-10, 1e-12)):
             s3.disagree(stim, {"misfit": a, "gradient": g2.tolist()}, {"misfit": b, "gradient": g3[keep].tolist()}, "3D with y=0 differs from 2D")
             findings.append(Finding("C17", "3D problem with all y = 0 differs from the 2D problem", {"kind": "dim"}, {"stimulus": stim, "m2": m2.ravel().tolist()}))
-    return [st, s3], findings
+    return [st, so, s3], findings
 
 
 def search(tier, seed, broken):
